@@ -8,6 +8,10 @@
 
   * A `time.Time` is an `Int` count of nanoseconds since the Unix epoch (as in Model/Server);
     `time.Time{}` is `zeroTime`.
+  * `Cfg.dropsUnsent = true` is the code after the `fix:` commit for finding F21 (an exchange
+    recorded by `handleRequest` whose reply was then not sent stayed on record with the software
+    reading `txt0` and was served in interleaved mode as the transmit time of a reply that never
+    existed); `dropsUnsent = false` is the code as it was (`codeUnsentOld`).
   * `Cfg.fixed = true` is the code after the `fix:` commit for finding F20 (a transmit timestamp
     that arrives after the 1 ms poll timeout used to be taken for the timestamp of the *next*
     datagram, for the rest of the listener's life); `fixed = false` is the code as it was.
@@ -155,12 +159,17 @@ def kernelRead : List Stamp → Kernel × List Stamp
 structure Cfg where
   fixed : Bool        -- with the repair of F20
   scmpReads : Bool    -- the SCMP / forwarding branches read their transmit timestamp too
+  dropsUnsent : Bool  -- with the repair of F21: an exchange that `handleRequest` has recorded and
+                      -- whose reply is then not sent is taken off the record again
 deriving DecidableEq, Repr
 
 /-- the code as it is now -/
-def code : Cfg := ⟨true, true⟩
-/-- the code before the `fix:` commit -/
-def codeOld : Cfg := ⟨false, true⟩
+def code : Cfg := ⟨true, true, true⟩
+/-- the code before the `fix:` commit for F20 -/
+def codeOld : Cfg := ⟨false, true, false⟩
+/-- the code after the F20 repair and before the `fix:` commit for F21: after `handleRequest` the
+    listeners could `continue` without a reply and without `updateTXTimestamp` -/
+def codeUnsentOld : Cfg := ⟨true, true, false⟩
 
 /-- Reads of one iteration. Returns the last result `(t, id, err)`, the queue afterwards and
     the number of `ReadTXTimestamp` calls.  Old code: one call.  Repaired code:
@@ -211,8 +220,18 @@ inductive Ev where
   /-- SCION only: an SCMP echo / traceroute request that is answered, or a packet that is
       forwarded: a datagram is written, the store is not touched -/
   | aux (sk : Nat) (kb : KB)
-  /-- a datagram that is not answered (any `continue` before the write) -/
+  /-- a datagram that is not answered (any `continue` before `handleRequest`) -/
   | drop (sk : Nat)
+  /-- a valid NTP request that `handleRequest` has answered and **recorded**, after which the
+      iteration ends without a datagram being written: `scionLayer.Path.Reverse()` fails
+      (runSCIONServer reverses the path *after* `handleRequest`; an irreversible path — e.g. a
+      one-hop path whose second hop field is still empty — is under the sender's control),
+      `conn.WriteToUDPAddrPort` fails or writes short (both listeners), no cookie could be
+      encrypted (`!addedCookie`, both listeners). No datagram, so the socket is not touched and no
+      transmit timestamp will ever exist. Before F21's repair: plain `continue`, the exchange
+      stays on record as (rx, software `txt0`). Repaired: `updateTXTimestamp(clientID, rxt, &txt0)`
+      first — the value recorded is the value handed over, so the store drops the exchange. -/
+  | unsent (sk cl : Nat) (req : Req) (krx : Option Int) (nowRx now : Int)
 deriving Repr
 
 structure World where
@@ -236,6 +255,7 @@ structure Out where
   own : Option Int            -- kernel transmit timestamp of this datagram, if delivered in time
   dgram : Nat
   nreads : Nat
+  unsent : Bool := false      -- `handleRequest` ran (rxt, txt0 are its), then nothing was written
 deriving Repr
 
 def Out.none (sk : Nat) : Out :=
@@ -261,6 +281,12 @@ def stepEv (cfg : Cfg) (cap icap : Nat) (w : World) : Ev → World × Out
     ({ w with socks := setSock w.socks sk p.sock },
      { Out.none sk with sent := true, own := kb.own, dgram := p.dgram, nreads := p.nreads })
   | .drop sk => (w, Out.none sk)
+  | .unsent sk cl req krx nowRx now =>
+    let rxt0 := krx.getD nowRx
+    let hr := handleRequest cap icap w.store cl req rxt0 now
+    let u := if cfg.dropsUnsent then updateTX hr.st cl hr.rxt hr.txt else (hr.st, hr.txt)
+    ({ w with store := u.1 },
+     { Out.none sk with cl := cl, rxt := hr.rxt, txt0 := hr.txt, txt1 := hr.txt, utx := u.2, unsent := true })
 
 def runEvs (cfg : Cfg) (cap icap : Nat) : World → List Ev → World × List Out
   | w, [] => (w, [])
